@@ -22,6 +22,10 @@
 #define isxdigit(c) (vhs_digit((unsigned char)(c)) < 16)
 #define strtoumax vh_strtoumax
 #define strtoimax vh_strtoimax
+/* forward declarations for the native replay (calls are rebound textually there) */
+struct http_cookie;
+int stub_chunkhdr(void *, int); int stub_gotclen(struct http_cookie *, size_t); int stub_toeof(void *, int); int stub_readheader(void *, int);
+size_t stub_findeol(const uint8_t *, size_t); int stub_gotheaders(struct http_cookie *, uint8_t *, size_t); int stub_readdata(void *, int);
 #include "http.c"
 /* ---- netbuf / network models ---- */
 static uint8_t * DATA; static size_t DLEN; static int waits, wait_refuse, consumed_bad; static size_t wait_len; static int (*wait_cb)(void *, int);
